@@ -412,8 +412,28 @@ class SymMap:
         return 'SymMap(%s)' % self.name
 
 
-class SymList:
-    """list of symbolic length: length z3 Int, elem(i) for concrete i >= 0 and 'last-k'."""
+class SymList(Mutable):
+    """list of symbolic length: length z3 Int, elem(i) by index term."""
+
+    def _loc_get(self, key):
+        return getattr(self, key)
+
+    def _loc_set_raw(self, key, val):
+        setattr(self, key, val)
+
+    def append(self, v):
+        old_len, old_fn, old_cache = self.length, self.elem_fn, self.cache
+
+        def elem(j, old_len=old_len, old_fn=old_fn, v=v):
+            js = z3.simplify(j == old_len)
+            if z3.is_true(js):
+                return v
+            if z3.is_false(js) or z3.is_true(z3.simplify(j < old_len)):
+                return old_fn(j)
+            raise Unsupported('index into appended symbolic list')
+        self._write('elem_fn', elem)
+        self._write('cache', {})
+        self._write('length', z3.simplify(old_len + 1))
 
     def __init__(self, name, length, elem_fn, origin=None):
         self.name = name
@@ -423,9 +443,10 @@ class SymList:
         self.origin = origin
 
     def elem(self, key):
-        if key not in self.cache:
-            self.cache[key] = self.elem_fn(key)
-        return self.cache[key]
+        k = key.sexpr() if hasattr(key, 'sexpr') else key
+        if k not in self.cache:
+            self.cache[k] = self.elem_fn(key)
+        return self.cache[k]
 
     def __repr__(self):
         return 'SymList(%s)' % self.name
